@@ -501,11 +501,13 @@ theorem pySet_append_end {α : Type} (l : List α) (d v : α) : pySet (l ++ [d])
   rw [if_neg h2]
   simp
 
+/-- the decompiled file has id = position: the id check of `_enlarge_routine_info` passes and exactly one slot is added -/
 theorem enlarge_next {ι : Type} (r : RState ι) (n : Nat) (h1 : r.infos.length = n) :
-    enlarge { r with active := (n : Int) } = ⟨r.infos ++ [none], r.ops ++ [[]], r.coros ++ [none], n⟩ := by
+    enlarge { r with active := (n : Int) } = .ok ⟨r.infos ++ [none], r.ops ++ [[]], r.coros ++ [none], n⟩ := by
   unfold enlarge
+  have h0 : ¬ ((n : Int) < 0 ∨ (n : Int) > (r.infos.length : Int)) := by omega
   have hc : ((r.infos.length : Int) - 1 < (n : Int)) := by omega
-  simp only [hc, if_true]
+  simp only [h0, hc, if_true, if_false]
   have : ((n : Int) - (r.infos.length : Int) + 1).toNat = 1 := by omega
   simp [this]
 
